@@ -10,6 +10,7 @@ CONSTANTS
   FaultSites = {}
   MaxCtx = 0
   MaxDepth = 5
+  ChainToggleChains = {}
   Variant = "head"
 SPECIFICATION SpecP
 VIEW view
